@@ -9,6 +9,9 @@ abbrev Q := Rat
 /-- fontTools.misc.roundTools.otRound: `int(math.floor(x + 0.5))`. -/
 def otRound (x : Q) : Int := (x + 1/2).floor
 
+/-- Python `abs` on exact rationals -/
+def absQ (x : Q) : Q := if x < 0 then -x else x
+
 /-- Python `str` comparison = code point lexicographic = Lean `String` order. -/
 def strLe (a b : String) : Bool := decide (a ≤ b)
 
